@@ -96,8 +96,13 @@ func NewRunner(
 		return nil, err
 	}
 
-	// Validate: check if database was migrated with a newer version of Juno (version downgrade)
-	err = validateNoVersionDowngrade(metadata.CurrentVersion, targetVersion)
+	// Validate: check if database was migrated with a newer version of Juno (version downgrade).
+	// A migration that a newer Juno has started but not finished is only recorded in
+	// LastTargetVersion: it counts as well, the database may already be half way there.
+	err = validateNoVersionDowngrade(
+		metadata.CurrentVersion.Union(metadata.LastTargetVersion),
+		targetVersion,
+	)
 	if err != nil {
 		return nil, err
 	}
